@@ -783,7 +783,7 @@ func WaitForErrAny(
 	}
 	cases[2] = reflect.SelectCase{
 		Dir:  reflect.SelectRecv,
-		Chan: reflect.ValueOf(t),
+		Chan: reflect.ValueOf(mach.WhenErr(ctx)),
 	}
 	for i, ch := range chans {
 		cases[predef+i] = reflect.SelectCase{
